@@ -28,3 +28,55 @@ pub fn prop() -> HistProp {
         assumptions: vec!["a handle that is dropped or replaced may write back its own directory entry (its parent directory is in scope)"],
     }
 }
+
+
+// ---------------------------------------------------------------------------------------------------------
+use super::{c20, hist};
+use crate::gen::Case;
+use crate::run::{self, Report, Tier};
+
+pub fn run(tier: Tier, seed: u64) -> i32 {
+    let hp = prop();
+    let mut rep = Report::new(hp.id, tier, seed, hp.level, hp.rule);
+    rep.rule.push_str("; plus the scripted 30-op history of C20 on sparse volumes of 4 GiB .. 2 TiB (and 4096-byte sectors up to the cluster limit) with the next-free hint at / near the last cluster: every device write must land in the cluster the independent 64-bit geometry assigns to the object being written (a byte offset that wraps at 2^32 lands in somebody else's cluster or in a reserved sector)");
+    for a in &hp.assumptions {
+        rep.assume(a);
+    }
+    let kb = hist::known_block(&hp, &mut rep);
+    rep.add(kb);
+    rep.add(hist::regress_block(&hp));
+    if !rep.failed() {
+        rep.add(hist::random_block(&hp, "random_histories", seed, tier.pick(hp.quick_cases, hp.thorough_cases)));
+    }
+    if !rep.failed() {
+        if let Some(b) = hist::pressure_block(&hp, seed, tier) {
+            rep.add(b);
+        }
+    }
+    if !rep.failed() {
+        let mut lcs = c20::large_cfgs();
+        for l in lcs.iter_mut() {
+            l.alias_bad = true;
+        }
+        let geoms: Vec<usize> = tier.pick(vec![0, 2, 4, 5], (0..c20::GEOMS.len()).collect());
+        let mut work: Vec<(usize, usize)> = Vec::new();
+        for g in &geoms {
+            for li in 0..lcs.len() {
+                if tier == Tier::Thorough || (li + *g) % 4 == 0 {
+                    work.push((*g, li));
+                }
+            }
+        }
+        let hp_ref = &hp;
+        let b = run::run_indexed("scripted_history_on_large_sparse_volumes", work.len() as u64, |i, blk| {
+            let (g, li) = work[i as usize];
+            let vol = c20::large_vol(g, lcs[li].clone());
+            let case = Case { vol: vol.clone(), ops: c20::scripted_ops(vol.cluster_size()) };
+            let out = hist::eval_case(hp_ref, &case);
+            blk.record(&out, || serde_json::json!({"vol": vol, "ops": "scripted (30 ops)"}));
+            out.violation.map(|m| run::Failure { message: m, case: serde_json::to_value(&case).unwrap(), kind: "history".into() })
+        });
+        rep.add(b);
+    }
+    rep.finish()
+}
